@@ -364,6 +364,18 @@ class ndarray:
             for i, v in zip(idx, vals):
                 self._d[i] = self._coerce(v)
             return
+        if len(self.shape) == 0:
+            # a[mask] = v on a 0-d array: the mask is one boolean; a[()] = v / a[...] = v assign
+            if key is Ellipsis or (isinstance(key, tuple) and len(key) == 0):
+                hit = True
+            else:
+                m = key._d[0] if isinstance(key, ndarray) and key.shape == () else key
+                if not isinstance(m, (bool, SymBool)) and not (isinstance(key, ndarray) and key.dtype.kind == 'b'):
+                    raise IndexError('too many indices for array: array is 0-dimensional')
+                hit = bool(m)
+            if hit:
+                self._d[0] = self._coerce(self._bcast(value, 1)[0])
+            return
         r, c = self.shape
         if not isinstance(key, tuple):
             key = (key, slice(None))
